@@ -505,6 +505,9 @@ pub fn run_property<P: Property>(p: &P, cfg: &RunCfg) -> i32 {
                         let mut runner = TestRunner::new(config);
                         let st = Mutex::new(Stats::default());
                         let failed = AtomicBool::new(false);
+                        // the first failing case as generated (before shrinking): reported when the
+                        // failure is not reproducible on the shrunk case (schedule-dependent defects)
+                        let first_failure: Mutex<Option<(Value, Fail)>> = Mutex::new(None);
                         let strat = p.strategy(cfg.tier);
                         let res = runner.run(&strat, |case| {
                             if stop.load(SeqCst) && !failed.load(SeqCst) {
@@ -526,7 +529,9 @@ pub fn run_property<P: Property>(p: &P, cfg: &RunCfg) -> i32 {
                                         }
                                         return Ok(());
                                     }
-                                    failed.store(true, SeqCst);
+                                    if !failed.swap(true, SeqCst) {
+                                        *first_failure.lock().unwrap() = Some((serde_json::to_value(&case).unwrap_or(Value::Null), fail.clone()));
+                                    }
                                     stop.store(true, SeqCst);
                                     Err(TestCaseError::fail(format!("{}: {}", fail.sub, fail.msg)))
                                 }
@@ -536,15 +541,22 @@ pub fn run_property<P: Property>(p: &P, cfg: &RunCfg) -> i32 {
                             Ok(()) => None,
                             Err(TestError::Fail(_reason, minimal)) => {
                                 // re-run the minimal case to obtain its own failure description
-                                let fail = match checked(p, &minimal) {
-                                    Err(f) => f,
-                                    Ok(_) => Fail::new("flaky", "minimal case passed when re-run: non-deterministic check"),
-                                };
-                                Some(Violation {
-                                    fail,
-                                    case: serde_json::to_value(&minimal).unwrap(),
-                                    origin: format!("proptest shard {shard} seed {seed} (shrunk)"),
-                                })
+                                match checked(p, &minimal) {
+                                    Err(fail) => Some(Violation {
+                                        fail,
+                                        case: serde_json::to_value(&minimal).unwrap(),
+                                        origin: format!("proptest shard {shard} seed {seed} (shrunk)"),
+                                    }),
+                                    Ok(_) => {
+                                        // not reproducible on the shrunk case: report the case that failed first
+                                        let (case, fail) = first_failure.lock().unwrap().take().unwrap_or((serde_json::to_value(&minimal).unwrap(), Fail::new("nondeterministic", "a generated case failed but neither it nor its shrunk form was recorded")));
+                                        Some(Violation {
+                                            fail: Fail::new(fail.sub, format!("{} [NOT DETERMINISTIC: the shrunk case passed when re-run, so the outcome depends on something outside the case (thread schedule, timing); this is the case as first generated and its replay may pass]", fail.msg)),
+                                            case,
+                                            origin: format!("proptest shard {shard} seed {seed} (unshrunk, non-deterministic failure)"),
+                                        })
+                                    }
+                                }
                             }
                             Err(TestError::Abort(reason)) => Some(Violation {
                                 fail: Fail::new("abort", format!("proptest aborted: {reason}")),
